@@ -85,7 +85,9 @@ def corpus_case(draw, tier="quick"):
         order = list(draw(st.permutations(range(n)))) if i % 2 else list(range(n))
         cfgs.append(
             {
-                "hashseed": ["0", "1", "2", "3", "random", "12345", "7", "99", "random", "4242", "31337", "8"][i % 12],
+                # child 0 is the reference (seed 0); the others get drawn seeds (not a fixed list: whether a hash-order
+                # dependence shows depends on the strings involved, so many different seeds across corpora)
+                "hashseed": "0" if i == 0 else ("random" if i % 6 == 4 else str(draw(st.integers(1, 2**20)))),
                 "uuid_mode": ["real", "ascending", "descending", "shuffled"][i % 4],
                 "uuid_seed": draw(st.integers(0, 1000)),
                 "child_index": i,
